@@ -100,6 +100,32 @@ __attribute__((noinline)) static void scenario()
       CHECK(is_model(s, b), "every pair of allowed values extends to a model (nothing is excluded by the encoding)");
     }
   }
+  // a third variable built with new_var(lits, vals) on the value literals of variable 0 (what core does when a field is read through an
+  // enum variable): w shares v0's controlling literals, so in every model w == v0 exactly when v0's value lies in w's domain
+  {
+    std::vector<lit> wl; std::vector<var_value *> wv;
+    for (int i = 0; i < NVAL; i++) if ((dom[0] & (1 << i)) && (i != 0 || dom[0] == 1)) { wl.push_back(vl[0][i]); wv.push_back(pool[i]); }
+    if (!wl.empty())
+    {
+      const var w = ov.new_var(wl, wv);
+      const lit ew = ov.new_eq(ovv[0], w);
+      CHECK(s.assigns.size() <= MAXV, "harness bound on SAT variables");
+      pr = s.propagate();
+      CHECK(pr, "requesting the equality with a literal-sharing variable leaves the network consistent");
+      bool m2[MAXV];
+      for (int i = 0; i < MAXV; i++) m2[i] = nondet_bool();
+      if (is_model(s, m2))
+      {
+        int c0 = 0; bool inw = false;
+        for (int i = 0; i < NVAL; i++)
+        {
+          c0 += lvalm(m2, vl[0][i]) ? 1 : 0;
+          if ((dom[0] & (1 << i)) && (i != 0 || dom[0] == 1)) inw = inw | lvalm(m2, vl[0][i]);
+        }
+        if (c0 == 1) CHECK(lvalm(m2, ew) == inw, "equality with a variable sharing the controlling literals: true exactly when the common value is taken");
+      }
+    }
+  }
   // history over value literals: the reported domain is exactly the set of values whose literal is not false, a removed value
   // is entailed to be impossible, and popping restores the domain
   const int H = rdp();
